@@ -57,6 +57,7 @@ pub fn hermes_scope() -> Report {
                     let key = (t.get_src_line() as u64 + 1, t.get_src_col());
                     entries.iter().filter(|e| (e.0 as u64, e.1) <= key).last().and_then(|e| ["f0", "f1", "f2"].get(e.2 as usize).map(|s| s.to_string()))
                 };
+                crate::witness(want.is_some());
                 if got != want { return r("hermes_scope", bound, cases, Some(format!("function map entries (line,col,name) {entries:?} encoded as {fm:?}: token at original ({},{}) of source {} resolves to {got:?}, expected {want:?}", t.get_src_line(), t.get_src_col(), t.get_src_id()))); }
             }
         }
@@ -112,6 +113,7 @@ pub fn index_flatten() -> Report {
         for l in 0..=4u32 { for c in 0..=12u32 {
             let a = match guarded(|| idx.lookup_token(l, c).map(|t| (t.get_source().unwrap_or("").to_string(), t.get_src_line(), t.get_src_col()))) { Ok(x) => x, Err(p) => return r("index_flatten", bound, cases, Some(format!("index lookup_token({l},{c}) with second section at {off:?}: {p}"))) };
             let b = flat.lookup_token(l, c).map(|t| (t.get_source().unwrap_or("").to_string(), t.get_src_line(), t.get_src_col()));
+            crate::witness(a.is_some());
             if let Some(av) = &a { if Some(av) != b.as_ref() {
                 return r("index_flatten", bound, cases, Some(format!("second section at {off:?}, tokens {t1:?} / {t2:?}: index lookup_token({l},{c}) = {a:?} but the flattened map gives {b:?}")));
             } }
@@ -190,6 +192,7 @@ pub fn index_nested() -> Report {
         for l in 0..=5u32 { for c in 0..=12u32 {
             let a = match guarded(|| idx.lookup_token(l, c).map(|t| (t.get_source().unwrap_or("").to_string(), t.get_src_line(), t.get_src_col(), t.get_name().map(|s| s.to_string())))) { Ok(x) => x, Err(p) => return r("index_nested", bound, cases, Some(format!("{ctx}: index lookup_token({l},{c}): {p}"))) };
             let b = flat.lookup_token(l, c).map(|t| (t.get_source().unwrap_or("").to_string(), t.get_src_line(), t.get_src_col(), t.get_name().map(|s| s.to_string())));
+            crate::witness(a.is_some());
             if let Some(av) = &a { if Some(av) != b.as_ref() {
                 return r("index_nested", bound, cases, Some(format!("{ctx}: index lookup_token({l},{c}) = {a:?} but the flattened map gives {b:?}")));
             } }
